@@ -16,6 +16,7 @@ package main
 // connect / accept) are retried, then reported as "infra-error" (never as a verdict of the code).
 
 import (
+	"bytes"
 	"fmt"
 	"io"
 	"net"
@@ -254,8 +255,21 @@ func c11EarlierSession(t transport.Transport) error {
 	return nil
 }
 
-func c11Send(a []string) string {
-	payload := unhx(a[0])
+func c11Send(a []string) string { return c11SendBytes(unhx(a[0])) }
+
+// `c11.sendlen <n> <fill>`: a payload of n octets of one value, for lengths whose hex form would not fit a line (the
+// widths at which a length can be narrowed by mistake: 2^24 and beyond)
+func c11SendLen(a []string) string {
+	n, _ := strconv.Atoi(a[0])
+	fill, _ := strconv.Atoi(a[1])
+	out := c11SendBytes(bytes.Repeat([]byte{byte(fill)}, n))
+	if len(out) > 1<<20 { // whatever went out for such a length, it is not printed in full
+		return out[:64] + "...(" + strconv.Itoa(len(out)) + " characters)"
+	}
+	return out
+}
+
+func c11SendBytes(payload []byte) string {
 	return retryInfra(func() (out string, ferr error) {
 		ln, port, err := listenLoopback()
 		if err != nil {
@@ -435,6 +449,7 @@ func init() {
 		ID: "C11",
 		Ops: []OpDef{
 			{Name: "c11.send", Impl: c11Send},
+			{Name: "c11.sendlen", Impl: c11SendLen},
 			{Name: "c11.recv", Impl: c11Recv},
 			{Name: "c11.e2e", Impl: c11E2E},
 		},
@@ -515,6 +530,10 @@ func genC11(r *Rng, tier string) []Case {
 	}
 	for _, n := range boundary {
 		send(payloadOf(rs, n), "send.boundary")
+	}
+	for _, n := range []int{0x1FFFF, 0x20000, 0xFFFFFF, 0x1000000, 0x1000005, 0x101FFFF, 0x2010000} {
+		a := []string{strconv.Itoa(n), "165"}
+		cs = append(cs, Case{Op: "c11.sendlen", MArgs: a, SArgs: a, Tag: "send.beyond-24-bits"})
 	}
 	ns := 400
 	if thorough {
